@@ -67,3 +67,24 @@ PROP["manifest"]["level_text"] += (
     "detached one precedes a delete), gstep_pointwise / stall_noninterference (every operation acts on each subscriber as a function of the "
     "cache and that subscriber alone; erasing all flow-control operations of one subscriber from a history leaves the cache and every other "
     "subscriber exactly the same).")
+# C08 clause (d) "terminated with an error after the timeout" over the sequential model (Props/C08Expire.lean), for every history
+# of SubEnd.Op operations (all of C07.Op + cache API calls + pregate), no side condition.
+PROP["modules"] += ["Gnmi.Lemmas.SubscribeEnd", "Gnmi.Props.C08Expire"]
+PROP["theorems"] += ["Gnmi.C08Expire." + t for t in [
+    "expire_pointwise", "blocked_only_while_gated", "expire_terminates", "expire_terminates_fields",
+    "stall_persists", "stalled_until_expire", "dead_stays_silent", "expired_stays_silent",
+    "expire_noninterference", "expire_only_blocked",
+    # non-vacuity; and why dead_stays_silent needs "holds no response" (a model-only artefact, see the docstring)
+    "st0_reachable", "st0_subs", "st0_after_expire", "eof_while_blocked_witness", "not_dead_stays_silent_any",
+]] + ["Gnmi.SubEnd." + t for t in [
+    "pump_frame", "pump_quiet", "subscribe_inv", "step_pointwise", "step_at", "run_at", "run_inv", "reachable_inv",
+    "subStep_dead", "subRun_dead", "subStep_blocked", "expireF_blocked", "expireF_other",
+]]
+PROP["manifest"]["level_text"] += (
+    " The timeout clause over the same sequential model (Props/C08Expire.lean), for every history of subscriptions, cache calls, feed events, "
+    "polls, EOF, flow-control operations, timeouts and drains (no side condition): blocked_only_while_gated / expire_terminates (a running "
+    "subscriber holding a response it cannot send is ended by expire: not running, error status 'unknown', out unchanged), stall_persists / "
+    "stalled_until_expire (until the timeout or an operation of its own client or flow control it stays inside Send, holding the same response, "
+    "and is sent nothing), dead_stays_silent / expired_stays_silent (a subscriber that is not running and holds no response is never sent "
+    "anything again and never changes status, whatever follows), expire_noninterference / expire_only_blocked (expire changes neither the cache "
+    "nor any subscriber that is not itself running and inside Send; in the model expire is the timeout of every sender that is inside Send).")
